@@ -21,7 +21,7 @@ try:
     for d in demos:
         os.makedirs(os.path.dirname(os.path.join(wt, d)) or wt, exist_ok=True)
         shutil.copy(os.path.join(src, d), os.path.join(wt, d))
-    shutil.copytree(S, os.path.join(wt, "SEEDED"))
+    shutil.copytree(S, os.path.join(wt, "SEEDED"), dirs_exist_ok=True)
     cmd = meta.get("demo_cmd")
     def run_demo():
         r = subprocess.run(cmd, shell=True, cwd=wt, env=env, stdout=subprocess.PIPE, stderr=subprocess.STDOUT, text=True)
